@@ -5,10 +5,13 @@
    (DESIGN.md Appendix B, WF): the LP token exists and is neither pool asset, the two pool assets
    differ, the asset tokens exist, balances are 128-bit (E-supply: per-asset totals < 2^128, which
    bounds both the reserves and any credit), the holder's balance is part of the supply.
-   PARTIAL: that these hypotheses hold in every reachable world is argued in DESIGN.md (creation sets
-   them up, no operation breaks them) and monitored on the real contracts, not proved over run. *)
+   [C20_reachable] discharges all the structural hypotheses through the invariant WF, which holds in
+   every world reachable by any history ([run]) from a well-formed start: "whatever other actors did
+   before".  What remains as hypotheses are the numeric ones: 128-bit balances (E-supply: per-asset
+   totals below 2^128, an environment assumption about the bank and the cw20 supplies), the holder's
+   balance being part of the supply, and the entitlement condition itself. *)
 From HT Require Import Base.Prelude Num.Arith Amm.Formulas Amm.Guards World.World
-  Proofs.LiquidityProofs Proofs.LedgerProofs Proofs.LivenessProofs.
+  Proofs.LiquidityProofs Proofs.LedgerProofs Proofs.LivenessProofs Proofs.WFProofs Proofs.ReachProofs.
 
 (* the entitlement condition forces each refund to be at least 2 units, so no zero transfer can abort it *)
 Theorem C20_refund_positive : forall r a T x,
@@ -52,6 +55,22 @@ Theorem C20_arithmetic_total : forall r0 r1 a T : N,
   r0 < W128 -> r1 < W128 -> T <> 0 -> a <= T -> exists x0 x1, withdraw_amounts r0 r1 a T = Ok (x0, x1).
 Proof. exact withdraw_total. Qed.
 
+Theorem C20_reachable : forall w0 w p ps holder a lt,
+  WF w0 -> reachable w0 w -> w_pairs w p = Some ps -> w_tokens w (p_lp ps) = Some lt ->
+  holder <> p -> 1 <= a -> a <= t_bal lt holder -> t_bal lt holder <= t_supply lt ->
+  t_bal lt p + a < W128 ->
+  bal w (p_a0 ps) p < W128 -> bal w (p_a1 ps) p < W128 ->
+  bal w (p_a0 ps) holder + bal w (p_a0 ps) p < W128 ->
+  bal w (p_a1 ps) holder + bal w (p_a1 ps) p < W128 ->
+  bal w (p_a0 ps) p * t_supply lt + 2 * t_supply lt * D <= bal w (p_a0 ps) p * a * D ->
+  bal w (p_a1 ps) p * t_supply lt + 2 * t_supply lt * D <= bal w (p_a1 ps) p * a * D ->
+  exists w', cw20_send w (p_lp ps) holder p a HWithdraw = Ok w'.
+Proof. exact withdraw_tx_succeeds_reachable. Qed.
+Theorem C20_invariant_history : forall ops w, WF w -> WF (run w ops).
+Proof. exact run_preserves_WF. Qed.
+
+Print Assumptions C20_reachable.
+Print Assumptions C20_invariant_history.
 Print Assumptions C20_refund_positive.
 Print Assumptions C20_handler.
 Print Assumptions C20.
